@@ -82,7 +82,7 @@ class AsyncPubSubManager(AsyncManager):
                                  'namespace': namespace or '/',
                                  'host_id': self.host_id})
 
-    async def disconnect(self, sid, namespace, **kwargs):
+    async def disconnect(self, sid, namespace=None, **kwargs):
         if kwargs.get('ignore_queue'):
             return await super().disconnect(
                 sid, namespace=namespace)
